@@ -504,6 +504,89 @@ func Sparse(rng *hx.Rng) *Pos {
 	return &Pos{B: b, Root: fen, Kind: "G2"}
 }
 
+// Heavy returns a position with heavy promoted material for the side to move: 4..9 queens (and a rook or
+// two) on an open board, i.e. 80..218 pseudo-legal moves - move counts beyond 127 / 128 do not occur in play-outs
+// or sparse placements (seeded change C16-G narrowed a cursor to int8). The other king sits in a corner
+// behind its own men, so the position is valid although the board is full of queens; a third of the time the
+// other side has heavy material too.
+func Heavy(rng *hx.Rng) *Pos {
+	for try := 0; try < 40; try++ {
+		var sq [64]byte
+		stm := Color(rng.Intn(2))
+		up := func(c byte) byte { // piece letter of the side to move
+			if stm == White {
+				return c - 32
+			}
+			return c
+		}
+		dn := func(c byte) byte {
+			if stm == White {
+				return c
+			}
+			return c - 32
+		}
+		// the other king in a corner of its own back rank, shielded
+		corner := []int{63, 56}[rng.Intn(2)]
+		if stm == Black {
+			corner -= 56
+		}
+		dr := -8
+		if stm == Black {
+			dr = 8
+		}
+		df := -1
+		if corner%8 == 0 {
+			df = 1
+		}
+		sq[corner] = dn('k')
+		sq[corner+df] = dn([]byte{'r', 'n', 'b'}[rng.Intn(3)])
+		sq[corner+dr] = dn('p')
+		sq[corner+dr+df] = dn('p')
+		if rng.Chance(0.3) {
+			sq[corner+dr+2*df] = dn('p')
+		}
+		free := func() int {
+			for k := 0; k < 50; k++ {
+				x := rng.Intn(64)
+				if sq[x] == 0 {
+					return x
+				}
+			}
+			return -1
+		}
+		nq := 4 + rng.Intn(6)
+		for i := 0; i < nq; i++ {
+			if x := free(); x >= 0 {
+				sq[x] = up('q')
+			}
+		}
+		for i := rng.Intn(3); i > 0; i-- {
+			if x := free(); x >= 0 {
+				sq[x] = up([]byte{'r', 'r', 'b', 'n'}[rng.Intn(4)])
+			}
+		}
+		if x := free(); x >= 0 {
+			sq[x] = up('k')
+		} else {
+			continue
+		}
+		if rng.Chance(0.33) {
+			for i := 2 + rng.Intn(6); i > 0; i-- {
+				if x := free(); x >= 0 {
+					sq[x] = dn('q')
+				}
+			}
+		}
+		fen := fenOf(sq, stm, "-", "-", rng.Intn(30), 40+rng.Intn(60))
+		b, err := board.FromFEN(fen)
+		if err != nil || !Valid(b) {
+			continue
+		}
+		return &Pos{B: b, Root: fen, Kind: "G2h"}
+	}
+	return nil
+}
+
 // Mutate returns a single-piece mutation of p (G4), or nil if the result is not valid.
 func Mutate(rng *hx.Rng, p Pos) *Pos {
 	s := p.B.VerifSnapshot()
@@ -575,6 +658,13 @@ func Stream(rng *hx.Rng, n int, emit func(Pos)) {
 	cnt := 0
 	for cnt < n {
 		switch x := rng.Intn(100); {
+		case x < 3:
+			for k := 0; k < 6 && cnt < n; k++ {
+				if p := Heavy(rng); p != nil {
+					emit(*p)
+					cnt++
+				}
+			}
 		case x < 30:
 			for k := 0; k < 40 && cnt < n; k++ {
 				if p := Sparse(rng); p != nil {
